@@ -179,8 +179,106 @@ def run_threaded(ctx, case):
         fr.close()
 
 
+# ---- (c) the same threaded programs under the deterministic scheduler (line granularity in tape_recorder.py)
+
+def run_scheduled(ctx, case):
+    from pbt import detsched as DS
+    from playback.tape_recorder import TapeRecorder
+    from pbt import zoo
+    prog = PS.assign_sids(case['prog'])
+    # twin (plain threads, no scheduler: the twin has no shared state)
+    Wt = PS.World('LIVE')
+    Wt.no_barrier = True
+    twin_cls = PS.build_class(prog, None, Wt, decorated=False)
+    twin_outcome = PS.execute(twin_cls, prog)
+    PS.forget_class(twin_cls)
+    sched = DS.Scheduler(('tape_recorder.py',), max_steps=40000)
+    DS.install(sched)
+    holder = {}
+    z = zoo.Zoo(kinds=('memory',), spy=True).__enter__()
+    try:
+        cas = z.cassettes[0]
+        rec = TapeRecorder(cas, random_seed=7)
+        # a real lock held across a switch point would block the baton holder: make any lock-like attribute of the
+        # recorder cooperative (harness-side; lock semantics are preserved)
+        for name, val in list(vars(rec).items()):
+            tn = type(val).__name__
+            if tn in ('RLock', '_RLock'):
+                setattr(rec, name, DS.CoRLock())
+            elif tn == 'lock':
+                setattr(rec, name, DS.CoLock())
+        rec.enable_recording()
+        W = PS.World('LIVE')
+        W.no_barrier = True
+        W.thread_factory = lambda target, args: DS.CoThread(target=target, args=args)
+        if case.get('params'):
+            prog['params'] = case['params']
+        cls = PS.build_class(prog, rec, W)
+
+        def main():
+            holder['outcome'] = PS.execute(cls, prog)
+
+        sched.spawn('main', main)
+        try:
+            sched.run(DS.replay_chooser(case['sched']['trace']) if case['sched']['mode'] == 'trace' else
+                      DS.pct_chooser(case['sched']['prio'], case['sched']['changes']) if case['sched']['mode'] == 'pct'
+                      else DS.random_chooser(case['sched']['seed'], case['sched'].get('p', 0.3)))
+        except DS.Deadlock as e:
+            raise Violation('deadlock under schedule: %s' % (e,), 'deadlock')
+        for st_ in sched.ts.values():
+            if st_.exc is not None:
+                raise Violation('thread %s died with %s: %s' % (st_.name, type(st_.exc).__name__, st_.exc),
+                                'thread-exception')
+
+        class FR_(object):
+            pass
+        fr = FR_()
+        fr.twin_outcome, fr.outcome, fr.Wt, fr.W = twin_outcome, holder.get('outcome'), Wt, W
+        fr.spy_log, fr.before, fr.after = list(cas.spy_log), None, None
+        if fr.outcome is None:
+            raise Violation('operation never finished under the schedule', 'termination')
+        try:
+            compare(fr, case)
+        except Violation as v:
+            v.case = dict(case, sched={'mode': 'trace', 'trace': list(sched.trace)})
+            raise
+        if rec.in_recording_mode or rec.is_recording_sample_forced or rec.current_recording_id is not None:
+            raise Violation('recorder not idle after the operation under this schedule: recording=%r forced=%r' % (
+                rec.in_recording_mode, rec.is_recording_sample_forced), 'idle-after-schedule',
+                case=dict(case, sched={'mode': 'trace', 'trace': list(sched.trace)}))
+        # exactly one finalisation also under concurrency (transparent to the service, reported separately)
+        created = [e for e in cas.spy_log if e[0] == 'create']
+        fin = [e for e in cas.spy_log if e[0] in ('save', 'abort')]
+        ctx.count('scheduled:finalisations=%d' % len(fin))
+        PS.forget_class(cls)
+    finally:
+        DS.install(None)
+        z.__exit__(None, None, None)
+    ctx.case({'prog': case['prog'], 'trace': ''.join(n[-1] for n in sched.trace)}, sched.preemptions >= 1, classes=(
+        'scheduled:' + case['how'], 'scheduled:preemptions=%d' % min(sched.preemptions, 5)))
+
+
+def scheduled_cases():
+    from props.C12 import scheds
+
+    @st.composite
+    def cases(draw):
+        c = draw(threaded_cases())
+        # another worker forces sampling / discards as well, to open check-then-use windows in those paths
+        workers = c['prog']['steps'][0]['workers']
+        for k, ws in enumerate(workers):
+            if ws and ws[0]['beh'] == 'ret' and draw(st.booleans()):
+                ws[0]['beh'] = draw(st.sampled_from(['force', 'discard', 'ret']))
+        c['sched'] = draw(scheds)
+        c['scheduled'] = True
+        return c
+    return cases()
+
+
 def replay(ctx, case):
-    if case.get('threaded'):
+    if case.get('scheduled'):
+        run_scheduled(ctx, case)
+    elif case.get('threaded'):
         run_threaded(ctx, case)
     elif 'faults' in case:
         run_case(ctx, case)
@@ -200,4 +298,6 @@ def bases():
 def run(ctx):
     ok = hyp_search(ctx, bases(), lambda b: enumerate_case(ctx, b), ctx.pick(40, 200), label="sequential")
     if ok:
-        hyp_search(ctx, threaded_cases(), lambda c: run_threaded(ctx, c), ctx.pick(100, 1500), label="threaded")
+        ok = hyp_search(ctx, threaded_cases(), lambda c: run_threaded(ctx, c), ctx.pick(100, 1500), label="threaded")
+    if ok:
+        hyp_search(ctx, scheduled_cases(), lambda c: run_scheduled(ctx, c), ctx.pick(60, 1500), label="scheduled")
